@@ -3,7 +3,7 @@ SPEC = {
     "n": {"quick": 500, "thorough": 8000},
     "components": {"1": "shouldInvalidate verdict per registered live query at each processed event",
                    "2": "whether the event was decodable (update.err)",
-                   "9": "trace cannot be replayed (unknown table / event the model says is dropped)"},
+                   "3": "a live query read before its dependency was registered", "9": "trace cannot be replayed (unknown table / event the model says is dropped)"},
     "corr_name": "Sql.Live (parse_rows_event, poll_loop_update, should_invalidate, tracker add/remove over Sql.Codec parse_binlog_row / tester) vs livesql/binlog.go (parseBinlogRowsEvent, RunPollLoop), livesql/live.go (dbTracker, shouldInvalidate)",
     "coq_modules": ["Sql.Codec", "Sql.CodecProofs", "Sql.Live", "Sql.LiveProofs"],
     "trusted_base": [
